@@ -33,7 +33,7 @@ def register(R):
         ("C19", "self.oracle_data_length_required is not None and self.oracle_data_length_required >= 1"),
         ("C19", "implies(self.oracle_data is not None, len(self.oracle_data) >= 1 and "
                 "len(self.oracle_data) < self.oracle_data_length_required)"),
-        ("C19", "0 <= self._updates_since_reset and self._updates_since_reset <= self._total_updates"),
+        ("C19,C01", "0 <= self._updates_since_reset and self._updates_since_reset <= self._total_updates"),
     ])
     R.contract(Q + ".calculate_distribution_statistics", tags=("C19",), modular=True, params={"data": "DF"},
                result="Dict[len:Int,md:Real,md_std:Real,acc:Real,acc_std:Real]",
@@ -55,8 +55,9 @@ def register(R):
                raises={"ValueError": {"when": "self.waiting_for_oracle or len(X) != 1", "iff": True,
                                       "ensures": ["unchanged(self)"]}},
                ensures=[
-                   "self._total_updates == old(self._total_updates) + 1",
-                   "self._updates_since_reset == (1 if %s else old(self._updates_since_reset) + 1)" % FRESH,
+                   # C01: the counters of MD3 (total never decreases; the epoch counter restarts only on the update after a drift)
+                   ("C19,C01", "self._total_updates == old(self._total_updates) + 1"),
+                   ("C19,C01", "self._updates_since_reset == (1 if %s else old(self._updates_since_reset) + 1)" % FRESH),
                    # exponentially forgotten margin density, restarted from the reference value after a drift
                    "self.curr_margin_density == " + CMD1,
                    "self.waiting_for_oracle == %s" % WARN,
@@ -71,7 +72,8 @@ def register(R):
                raises={"ValueError": {"when": "(not self.waiting_for_oracle) or len(labeled_sample) != 1 or %s" % COLS_BAD,
                                       "iff": True, "ensures": ["unchanged(self)"]}},
                ensures=[
-                   "unchanged(self._total_updates) and unchanged(self._updates_since_reset)",
+                   # C01: an oracle label is not a sample - neither counter moves, whatever the verdict
+                   ("C19,C01", "unchanged(self._total_updates) and unchanged(self._updates_since_reset)"),
                    # before the required number of labelled samples: collecting, no decision
                    "implies(not %s, self._drift_state is None and self.waiting_for_oracle and self.oracle_data is not None and "
                    "len(self.oracle_data) == %s and unchanged(self.reference_distribution))" % (DONE, NLAB),
